@@ -105,10 +105,14 @@ def py_mod(a, b):
     return a - b * py_floordiv(a, b)
 
 
-# Python scalars: `x / 0.0`, `x // 0.0`, `x % 0.0` and `0.0 ** -k` raise ZeroDivisionError exactly like the integer forms
-# (engine self-test: real_truediv, real_floordiv, real_mod, neg_pow_zero_base).  Array operands (SymArr) follow numpy /
-# torch and do not raise.  PYVC_REAL_DIV_ZERO=0 switches the check off (the pre-self-test behaviour).
-REAL_DIV_ZERO_RAISES = __import__("os").environ.get("PYVC_REAL_DIV_ZERO", "1") != "0"
+# Python float scalars: `x / 0.0`, `x // 0.0`, `x % 0.0` and `0.0 ** -k` raise ZeroDivisionError exactly like the integer
+# forms (engine self-test: real_truediv, real_floordiv, real_mod, neg_pow_zero_base).  A real-sorted Sym ALSO stands for
+# numpy / torch scalars (results of `.sum()`, elements), whose division by zero yields inf / nan and does NOT raise, and the
+# engine does not track which of the two a value is.  The check is therefore OPT-IN (PYVC_REAL_DIV_ZERO=1 or
+# values.REAL_DIV_ZERO_RAISES = True in a property's make_registry): off = numpy reading (no exception, unconstrained
+# quotient), on = Python-float reading.  With the default, absence of ZeroDivisionError is NOT established for divisions
+# whose operands are Python floats; the self-test lists this as a known deviation.
+REAL_DIV_ZERO_RAISES = __import__("os").environ.get("PYVC_REAL_DIV_ZERO", "0") == "1"
 
 
 def _real_zero_check(b, msg):
@@ -623,6 +627,19 @@ class SymArr:
             else:
                 shape[k] = S(total) // rest if contains_sym((total, rest)) else total // rest
         shape = tuple(shape)
+        # element counts must agree: numpy raises ValueError, torch RuntimeError (decided here for concrete extents only;
+        # engine self-test: np_reshape_bad, t_reshape_bad)
+        if all(_dim_lit(d) is not None for d in tuple(old) + shape):
+            n_old = n_new = 1
+            for d in old:
+                n_old *= _dim_lit(d)
+            for d in shape:
+                n_new *= _dim_lit(d)
+            if n_old != n_new or any(_dim_lit(d) < 0 for d in shape):
+                from .interp import RaiseSig
+
+                is_t = getattr(getattr(self, "as_type", None), "__name__", "") == "Tensor"
+                raise RaiseSig((RuntimeError if is_t else ValueError)(f"cannot reshape array of size {n_old} into shape {shape}"))
         srcfn = _snap_fn(self, view=True)
 
         sym_old = len(old) > 1 and any(_dim_lit(d) is None for d in old)
